@@ -528,13 +528,16 @@ def applyContextRule (recurse : Ctx → Nat → M (Ctx × Bool)) (c : Ctx) (inpu
     let b ← c.buf.unsafeToBreak c.buf.idx (some r.endPos)
     let c ← applyLookup recurse { c with buf := b } input.length r.positions r.endPos lookups
     pure (c, true)
-  else pure (c, false)
+  else
+    let b ← c.buf.unsafeToConcat c.buf.idx (some r.endPos)
+    pure ({ c with buf := b }, false)
 
 /-- src: apply_chain_context (and ChainedContextLookup::Format3) -/
 def applyChainRule (recurse : Ctx → Nat → M (Ctx × Bool)) (c : Ctx) (nBack nIn nAhead : Nat)
     (fBack fIn fAhead : Nat → Nat → Bool) (lookups : List Rec) : M (Ctx × Bool) := do
   let r ← matchInput c nIn fIn [0, 0, 0, 0]
-  let endIndex0 := if r.ok then r.endPos else c.buf.idx
+  -- on a failed input match `match_end` is the end of the span that was inspected
+  let endIndex0 := max r.endPos c.buf.idx
   let (okA, endIndex) ← if r.ok then matchLookahead c nAhead fAhead r.endPos else pure (false, endIndex0)
   if !(r.ok && okA) then
     let b ← c.buf.unsafeToConcat c.buf.idx (some endIndex)
